@@ -1,4 +1,236 @@
 package intr
 
+import (
+	"sort"
+	"strconv"
+	"strings"
+
+	"verif/harness/lib"
+)
+
+// Gallina printer: the case and what was observed, as an `icase` of coq/Model/IntrObs.v.
+//
+// Map keys of values are numbered: "x" (the top-level input key) = 0, "#" (the pre-handler's
+// stamp) = 1, "n<id>" = id; anything else (e.g. the "resume" key of the inputs handed to the
+// resume calls, which a resumed run must ignore) = 999999, a number the model never produces.
+
+const foreignCode = 999999
+
+func keyCode(k string) uint64 {
+	switch k {
+	case "x":
+		return 0
+	case "#":
+		return 1
+	}
+	if id := parseKey(k); id >= 2 {
+		return uint64(id)
+	}
+	return foreignCode
+}
+
+func coqVal(v *Val) string {
+	if v == nil {
+		return "VNil"
+	}
+	if !v.Map {
+		n, err := strconv.ParseUint(v.Leaf, 10, 62)
+		if err != nil {
+			n = foreignCode
+		}
+		return lib.CoqApp("VAtom", lib.CoqN(n))
+	}
+	type kv struct {
+		k uint64
+		s string
+	}
+	kvs := make([]kv, len(v.Keys))
+	for i, k := range v.Keys {
+		kvs[i] = kv{keyCode(k), coqVal(v.Vals[i])}
+	}
+	sort.SliceStable(kvs, func(a, b int) bool { return kvs[a].k < kvs[b].k })
+	items := make([]string, len(kvs))
+	for i, e := range kvs {
+		items[i] = lib.CoqPair(lib.CoqN(e.k), e.s)
+	}
+	return lib.CoqApp("VMap", lib.CoqList(items))
+}
+
+func coqIDs(ids []int) string {
+	ns := make([]uint64, len(ids))
+	for i, id := range ids {
+		ns[i] = uint64(id)
+	}
+	return lib.CoqNList(ns)
+}
+
+func coqBranch(b *BranchSpec, nodata bool) string {
+	rows := make([]string, len(b.Table))
+	for i, r := range b.Table {
+		rows[i] = coqIDs(r)
+	}
+	return lib.CoqApp("Build_branch", coqIDs(b.Targets), lib.CoqBool(nodata), lib.CoqList(rows))
+}
+
+func coqNode(g *GraphSpec, id int, sub int) string {
+	var dsucc, csucc []int
+	for _, e := range g.Edges {
+		if e.From != id {
+			continue
+		}
+		if e.Kind != 1 {
+			dsucc = append(dsucc, e.To)
+		}
+		if e.Kind != 2 {
+			csucc = append(csucc, e.To)
+		}
+	}
+	var bs []string
+	for i := range g.Branches {
+		if g.Branches[i].From == id {
+			bs = append(bs, coqBranch(&g.Branches[i], g.Mode == "wf"))
+		}
+	}
+	kind := "KLambda"
+	if sub > 0 {
+		kind = "(KSub " + lib.CoqNat(sub) + ")"
+	}
+	return lib.CoqApp("Build_node", lib.CoqN(uint64(id)), kind, "None", coqIDs(dsucc), coqIDs(csucc), "[]", lib.CoqList(bs))
+}
+
+func coqGraph(g *GraphSpec) string {
+	ns := []string{coqNode(g, StartID, 0)}
+	for _, n := range g.Nodes {
+		ns = append(ns, coqNode(g, n.ID, n.Sub))
+	}
+	mode := "Dag"
+	max := 0
+	if g.Mode == "pregel" {
+		mode = "Pregel"
+		max = g.MaxSteps
+	}
+	return lib.CoqApp("Build_graph", "["+strings.Join(ns, ";\n     ")+"]", mode, lib.CoqBool(g.Mode == "wf"), lib.CoqNat(max))
+}
+
+func coqSpec(g *GraphSpec) string {
+	var st []int
+	var reruns []string
+	for _, n := range g.Nodes {
+		if n.St {
+			st = append(st, n.ID)
+		}
+		if len(n.Rerun) > 0 {
+			reruns = append(reruns, lib.CoqPair(lib.CoqN(uint64(n.ID)), coqIDs(n.Rerun)))
+		}
+	}
+	return lib.CoqApp("Build_gspec", coqGraph(g), lib.CoqBool(g.State), coqIDs(st), lib.CoqList(reruns), coqIDs(g.Before), coqIDs(g.After))
+}
+
+// coqState prints the canonical state value {mods, saved, seen} as (Some gstate); nil = None.
+func coqState(v *Val) string {
+	if v == nil {
+		return "None"
+	}
+	mods := uint64(foreignCode)
+	if m := v.get("mods"); m != nil && !m.Map {
+		if n, err := strconv.ParseUint(m.Leaf, 10, 62); err == nil {
+			mods = n
+		}
+	}
+	var seen, saved []string
+	if s := v.get("seen"); s != nil {
+		for i, k := range s.Keys {
+			n := uint64(foreignCode)
+			if !s.Vals[i].Map {
+				if x, err := strconv.ParseUint(s.Vals[i].Leaf, 10, 62); err == nil {
+					n = x
+				}
+			}
+			seen = append(seen, lib.CoqPair(lib.CoqN(keyCode(k)), lib.CoqN(n)))
+		}
+	}
+	if s := v.get("saved"); s != nil {
+		for i, k := range s.Keys {
+			saved = append(saved, lib.CoqPair(lib.CoqN(keyCode(k)), coqVal(s.Vals[i])))
+		}
+	}
+	return lib.CoqSome(lib.CoqApp("Build_gstate", lib.CoqList(seen), lib.CoqList(saved), lib.CoqN(mods)))
+}
+
+func coqInfo(i *InfoObs) string {
+	subs := make([]string, len(i.Subs))
+	for k, s := range i.Subs {
+		inner := "(OInfo None [] [] [] [])"
+		if s.Info != nil {
+			inner = coqInfo(s.Info)
+		}
+		subs[k] = lib.CoqPair(lib.CoqN(uint64(s.ID)), inner)
+	}
+	return lib.CoqApp("OInfo", coqState(i.State), coqIDs(i.Before), coqIDs(i.After), coqIDs(i.Rerun), lib.CoqList(subs))
+}
+
+func classCode(class string) uint64 {
+	switch class {
+	case "done":
+		return 0
+	case "interrupt":
+		return 1
+	case "steplimit":
+		return 2
+	case "fail":
+		return 3
+	}
+	return 9
+}
+
+func coqSeg(c *Case, s *SegObs) string {
+	out := "VNil"
+	if s.Class == "done" {
+		out = coqVal(s.Out)
+	}
+	info := "None"
+	if s.Class == "interrupt" && s.Info != nil {
+		info = lib.CoqSome(coqInfo(s.Info))
+	}
+	execs := make([]string, len(s.Execs))
+	for i, e := range s.Execs {
+		execs[i] = lib.CoqTuple(lib.CoqN(uint64(e.ID)), coqVal(e.In), lib.CoqBool(e.Abort))
+	}
+	cmp := !(hasEager(c) && s.Class != "done" && s.Class != "interrupt")
+	return lib.CoqApp("Build_oseg", lib.CoqN(classCode(s.Class)), out, info, lib.CoqList(execs),
+		lib.CoqBool(cmp), lib.CoqBool(s.Sets == 1), lib.CoqBool(s.Sets <= 1))
+}
+
+func coqScheds(ss []SchedObs) string {
+	items := make([]string, len(ss))
+	for i, s := range ss {
+		orders := make([]string, len(s.Orders))
+		for j, o := range s.Orders {
+			orders[j] = coqIDs(o)
+		}
+		items[i] = lib.CoqPair(lib.CoqN(uint64(s.Graph)), lib.CoqList(orders))
+	}
+	return lib.CoqList(items)
+}
+
 // CoqTerm prints the case and the observation as a Gallina term (empty: not sent to the model).
-func CoqTerm(c *Case, obs *RunObs) string { return "" }
+func CoqTerm(c *Case, obs *RunObs) string {
+	if obs.CompileErr != "" || obs.Ref == nil || len(obs.Segs) == 0 {
+		return ""
+	}
+	gs := make([]string, len(c.Graphs))
+	for i := range c.Graphs {
+		gs[i] = coqSpec(&c.Graphs[i])
+	}
+	mods := make([]string, len(c.Calls))
+	for i, cs := range c.Calls {
+		mods[i] = lib.CoqBool(cs.Mod)
+	}
+	segs := make([]string, len(obs.Segs))
+	for i, s := range obs.Segs {
+		segs[i] = coqSeg(c, s)
+	}
+	input := coqVal(canon(c.input()))
+	return lib.CoqApp("Build_icase", "["+strings.Join(gs, ";\n    ")+"]", input, lib.CoqBool(c.NoID), lib.CoqList(mods),
+		coqScheds(obs.RefScheds), coqScheds(obs.Scheds), coqSeg(c, obs.Ref), "["+strings.Join(segs, ";\n    ")+"]")
+}
